@@ -58,4 +58,6 @@ def panel (f : Feat) : Panel :=
     prog := prog f,
     ctrl := .ssd (Ssd.por true 120 688) }
 
+attribute [driver_simp] W init updateFrame displayFrame clearFrame prog
+
 end EpdVerif.Drivers.Epd7in5_hd
